@@ -43,6 +43,9 @@ func replay(f lib.Flags) int {
 		if d, ok := in["d"]; ok {
 			c.D = fmt.Sprint(d)
 		}
+		if b, ok := in["b"]; ok {
+			c.B = fmt.Sprint(b)
+		}
 		o := c.runCode()
 		c.safeMonitor(m, o)
 		fmt.Printf("replay %s -> code=%s\n", c.line(), o.text)
